@@ -21,6 +21,32 @@ func pathEstablishes(p core.Path, fact core.CondFact) bool {
 				return true
 			}
 		}
+		// a test of a merged boolean ( done := a || b; if !done { done = rem.Len() == 0 }; if done {...} ): on this path the
+		// variable has the value of the edge the path came in by
+		if len(b.Instrs) == 0 || len(b.Succs) != 2 || b.Succs[0] == b.Succs[1] {
+			continue
+		}
+		iff, ok := b.Instrs[len(b.Instrs)-1].(*ssa.If)
+		if !ok {
+			continue
+		}
+		kk := k
+		var resolving core.CondFact
+		resolving = func(cond ssa.Value) (bool, bool) {
+			if _, isPhi := cond.(*ssa.Phi); isPhi {
+				if r := p.ResolveAt(kk, cond); r != cond {
+					if _, still := r.(*ssa.Phi); !still {
+						return core.EvalFact(r, resolving)
+					}
+				}
+				return false, false
+			}
+			return fact(cond)
+		}
+		t, f := core.EvalFact(iff.Cond, resolving)
+		if (p[k+1] == b.Succs[0] && t) || (p[k+1] == b.Succs[1] && f) {
+			return true
+		}
 	}
 	return false
 }
@@ -208,7 +234,20 @@ func byteSeq(v ssa.Value) (parts []ssa.Value, ok bool) {
 
 // tlvRead: v is container.GetBytes/GetString/GetByte(tag) with constant tag; returns the container value and tag.
 func tlvRead(v ssa.Value) (cont ssa.Value, method string, tag int64, ok bool) {
+	return tlvReadDepth(v, 0)
+}
+
+func tlvReadDepth(v ssa.Value, depth int) (cont ssa.Value, method string, tag int64, ok bool) {
 	for _, s := range core.Sources(v) {
+		// the item read by the only caller and handed in
+		if pr, isP := s.(*ssa.Parameter); isP && depth < 3 {
+			if a := core.Active.SoleCallArg(pr); a != nil {
+				if c, m, t, ok := tlvReadDepth(a, depth+1); ok {
+					return c, m, t, true
+				}
+			}
+			continue
+		}
 		c, isC := s.(*ssa.Call)
 		if !isC || !c.Call.IsInvoke() || !core.TypeIs(c.Call.Value.Type(), qContainer) {
 			continue
